@@ -1,4 +1,5 @@
-# merge_shard_infos under contract (development: props=[] keeps it out of the checks)
+# merge_shard_infos under contract (C04 exact totals, C05 acceptance, C06 children before parents,
+# C08 nothing recreated, C09 / C16 every list re-hashed with the configured algorithms)
 MM = "sedpack/io/merge_shard_infos.py"
 macro("MD", ["updates", "common"], "PPREFIX(UP(updates[0]), common)")
 macro("MP0", ["updates", "common"], "PJOIN(PPREFIX(UP(updates[0]), common), 'shards_list.json')")
@@ -24,7 +25,11 @@ _RSL_OK = [
     f"forall(lambda i: implies(0 <= i and i < len({_RSL}.shard_files), VALID_ShardInfo({_RSL}.shard_files[i])))",
     f"forall(lambda i: implies(0 <= i and i < len({_RSL}.shard_files), dstate(PJOIN(dataset_root, {_RSL}.shard_files[i].file_infos[0].file_path)) == 2))",
 ]
-contract(MM, "merge_shard_infos", props=[],
+contract(MM, "merge_shard_infos", props=["C04", "C05", "C06", "C08", "C09", "C16"],
+    note="termination of the recursion is not verified (partial correctness)",
+    at_call={"write_config": [("C16", "callee_hashes == hashes"), ("C17", "callee_dataset_root_path == dataset_root")],
+             "load_or_create": [("C17", "callee_dataset_root_path == dataset_root")],
+             "merge_shard_infos": [("C16", "callee_hashes == hashes"), ("C04", "callee_common == common + 1 and callee_dataset_root == dataset_root")]},
     params={"updates": "list:ref:ShardListInfo", "dataset_root": "U", "common": "int", "hashes": "list:U"},
     returns="ref:ShardListInfo",
     requires=["len(updates) >= 1", "common >= 1",
